@@ -135,6 +135,32 @@ MUTANTS = [
      "            return uuid.UUID(value[1:-1]).int & (2 ** 127 - 1)\n        else:\n            return int(value)\n\n    "),
     ('C01', 'newline-translation-back', 'xtuml/load.py',
      "        with open(filename, 'r', newline='') as f:", "        with open(filename, 'r') as f:"),
+    ('C03', 'null-id-links', 'xtuml/meta.py',
+     "            return value == 0\n", "            return False\n"),
+    ('C03', 'index-first-attribute-only', 'xtuml/meta.py',
+     "        for attr in self.key_map.values():\n            if _is_null(to_instance, attr):\n                return None\n            ",
+     "        for attr in list(self.key_map.values())[:1]:\n            if _is_null(to_instance, attr):\n                return None\n            "),
+    ('C03', 'connections-before-instances', 'xtuml/load.py',
+     "        self.populate_instances(metamodel)\n        self.populate_connections(metamodel)",
+     "        self.populate_connections(metamodel)\n        self.populate_instances(metamodel)"),
+    ('C03', 'zip-loads-every-member', 'bridgepoint/ooaofooa.py',
+     "                    if zipinfo.filename.endswith('.xtuml'):", "                    if True:"),
+    ('C03', 'duplicates-keep-last-only', 'xtuml/load.py',
+     "                    if inst_key not in storage[target_class][link_key]:\n                        storage[target_class][link_key][inst_key] = xtuml.OrderedSet()",
+     "                    if True:\n                        storage[target_class][link_key][inst_key] = xtuml.OrderedSet()"),
+    ('C03', 'index-shared-across-associations', 'xtuml/load.py',
+     "            link_key = frozenset(ass.source_link.key_map.values())",
+     "            link_key = frozenset([len(ass.source_link.key_map)])"),
+    ('C03', 'null-empty-string-links', 'xtuml/meta.py',
+     "            return len(value) == 0", "            return False"),
+    ('C03', 'new-links-null-referentials', 'xtuml/meta.py',
+     "                    kwargs = None\n                    break", "                    pass"),
+    ('C03', 'directory-walk-top-only', 'bridgepoint/ooaofooa.py',
+     "            for path, _, files in os.walk(path_or_filename):", "            for path, _, files in list(os.walk(path_or_filename))[:1]:"),
+    ('C03', 'clone-skips-last-attribute', 'xtuml/meta.py',
+     "        return self.new(*args)", "        return self.new(*args[:-1]) if len(args) > 1 else self.new(*args)"),
+    ('C03', 'named-insert-first-match-case-sensitive', 'xtuml/load.py',
+     "        inst_unames = [name.upper() for name in stmt.names]", "        inst_unames = [name for name in stmt.names]"),
 ]
 
 
